@@ -10,6 +10,9 @@ namespace Kmip
 theorem GenC08_serve_skeleton : KmipGen.skel_Server_serve = ExpectSkel.skel_Server_serve := by decide
 theorem GenC08_handleBatch_skeleton : KmipGen.skel_Server_handleBatch = ExpectSkel.skel_Server_handleBatch := by decide
 theorem GenC08_handleWrapped_skeleton : KmipGen.skel_Server_handleWrapped = ExpectSkel.skel_Server_handleWrapped := by decide
+/-- how handlers get into the table `handleWrapped` looks them up in: `Handle`, and the built-in entry `initHandlers` installs once -/
+theorem GenC08_Handle_skeleton : KmipGen.skel_Server_Handle = ExpectSkel.skel_Server_Handle := by decide
+theorem GenC08_initHandlers_skeleton : KmipGen.skel_Server_initHandlers = ExpectSkel.skel_Server_initHandlers := by decide
 end Kmip
 
 /-
